@@ -1804,4 +1804,293 @@ theorem length_cumsumFrom (s : Int) (l : List Int) : (cumsumFrom s l).length = l
   | nil => rfl
   | cons a l ih => simp [cumsumFrom, ih]
 
+/-! ### merge_matrices: np.insert at row starts -/
+
+/-- (position, value) pairs that insert `ins_j` at the start of row `j`, rows given as (ins_j, a_j) -/
+def pairsFrom {β} (s : Nat) : List (List β × List β) → List (Nat × β)
+  | [] => []
+  | (ins, a) :: rest => ins.map (fun v => (s, v)) ++ pairsFrom (s + a.length) rest
+
+theorem pairsFrom_ge {β} (s : Nat) (rows : List (List β × List β)) : ∀ q ∈ pairsFrom s rows, s ≤ q.1 := by
+  induction rows generalizing s with
+  | nil => intro q hq; cases hq
+  | cons p rows ih =>
+    obtain ⟨ins, a⟩ := p
+    intro q hq
+    simp only [pairsFrom, List.mem_append, List.mem_map] at hq
+    rcases hq with ⟨v, _, rfl⟩ | hq
+    · exact Nat.le_refl _
+    · have := ih (s + a.length) q hq; omega
+
+theorem filter_eq_nil_of_forall {β} (p : β → Bool) (l : List β) (h : ∀ x ∈ l, p x = false) : l.filter p = [] := by
+  rw [List.filter_eq_nil_iff]
+  intro x hx
+  simp [h x hx]
+
+theorem filter_eq_self_of_forall {β} (p : β → Bool) (l : List β) (h : ∀ x ∈ l, p x = true) : l.filter p = l := by
+  rw [List.filter_eq_self]
+  exact h
+
+theorem npInsert_rows {β} : ∀ (rows : List (List β × List β)) (s : Nat) (dead : List (Nat × β)) (pend : List β),
+    (∀ q ∈ dead, q.1 < s) →
+    npInsertFrom s (dead ++ pend.map (fun v => (s, v)) ++ pairsFrom s rows) ((rows.map (·.2)).flatten)
+      = pend ++ (rows.map (fun p => p.1 ++ p.2)).flatten := by
+  intro rows
+  induction rows with
+  | nil =>
+    intro s dead pend hdead
+    simp only [pairsFrom, List.append_nil, List.map_nil, List.flatten_nil, npInsertFrom, List.filter_append,
+      List.map_append]
+    rw [filter_eq_nil_of_forall _ dead (by intro q hq; have := hdead q hq; simp; omega),
+      filter_eq_self_of_forall _ _ (by intro q hq; obtain ⟨v, _, rfl⟩ := List.mem_map.mp hq; simp)]
+    simp [List.map_map, Function.comp_def]
+  | cons p rows ih =>
+    obtain ⟨ins, a⟩ := p
+    induction a generalizing ins with
+    | nil =>
+      intro s dead pend hdead
+      have := ih s dead (pend ++ ins) hdead
+      simp only [List.map_append, List.append_assoc] at this
+      simp only [pairsFrom, List.length_nil, Nat.add_zero, List.map_cons, List.flatten_cons, List.nil_append,
+        List.append_nil, List.append_assoc]
+      rw [this]
+    | cons x a iha =>
+      intro s dead pend hdead
+      simp only [pairsFrom, List.map_cons, List.flatten_cons, List.cons_append, npInsertFrom, List.length_cons]
+      -- the values emitted at position s
+      have hf : ((dead ++ pend.map (fun v => (s, v)) ++ (ins.map (fun v => (s, v)) ++ pairsFrom (s + (a.length + 1)) rows)).filter
+          (fun p => p.1 == s)).map (·.2) = pend ++ ins := by
+        simp only [List.filter_append, List.map_append]
+        rw [filter_eq_nil_of_forall _ dead (by intro q hq; have := hdead q hq; simp; omega),
+          filter_eq_self_of_forall _ (pend.map _) (by intro q hq; obtain ⟨v, _, rfl⟩ := List.mem_map.mp hq; simp),
+          filter_eq_self_of_forall _ (ins.map _) (by intro q hq; obtain ⟨v, _, rfl⟩ := List.mem_map.mp hq; simp),
+          filter_eq_nil_of_forall _ (pairsFrom _ rows) (by
+            intro q hq; have := pairsFrom_ge _ _ q hq; simp; omega)]
+        simp [List.map_map, Function.comp_def]
+      rw [hf]
+      have hrec := iha [] (s + 1) (dead ++ pend.map (fun v => (s, v)) ++ ins.map (fun v => (s, v))) [] (by
+        intro q hq
+        simp only [List.mem_append, List.mem_map] at hq
+        rcases hq with (hq | ⟨v, _, rfl⟩) | ⟨v, _, rfl⟩
+        · have := hdead q hq; omega
+        · simp
+        · simp)
+      simp only [List.map_nil, List.append_nil, pairsFrom, List.nil_append, List.map_cons, List.flatten_cons] at hrec
+      have e : s + (a.length + 1) = s + 1 + a.length := by omega
+      rw [e]
+      simp only [List.append_assoc] at hrec ⊢
+      rw [hrec]
+      simp
+
+theorem zip_repeatSpec_flatten {β} (P : List Nat) (RB : List (List β)) (h : P.length = RB.length) :
+    (repeatSpec P (RB.map List.length)).zip RB.flatten
+      = (List.zipWith (fun p r => r.map (fun v => (p, v))) P RB).flatten := by
+  induction P generalizing RB with
+  | nil => cases RB with
+    | nil => rfl
+    | cons _ _ => simp at h
+  | cons p P ih => cases RB with
+    | nil => simp at h
+    | cons r RB =>
+      simp only [List.map_cons, repeatSpec, List.flatten_cons, List.zipWith_cons_cons]
+      rw [List.zip_append (by simp), ih RB (by simpa using h)]
+      congr 1
+      clear ih h
+      induction r with
+      | nil => rfl
+      | cons v r ihr => simp [List.replicate_succ, ihr]
+
+/-! ### re-indexing sorted lines by rows -/
+
+theorem lookup_cons_ne {β} (j i : Nat) (v : β) (l : List (Nat × β)) (h : j ≠ i) :
+    List.lookup j ((i, v) :: l) = List.lookup j l := by
+  have : (j == i) = false := by simpa using h
+  simp [List.lookup_cons, this]
+
+theorem reindex_sorted {β γ} (h : Nat → Option β → List γ) (hnone : ∀ j, h j none = []) :
+    ∀ (n j : Nat) (lines : List Nat) (vals : List β), lines.length = vals.length →
+      lines.Pairwise (· < ·) → (∀ l ∈ lines, j ≤ l ∧ l < j + n) →
+      (List.range' j n).flatMap (fun k => h k ((lines.zip vals).lookup k))
+        = (lines.zip vals).flatMap (fun p => h p.1 (some p.2)) := by
+  intro n
+  induction n with
+  | zero =>
+    intro j lines vals _ _ hr
+    cases lines with
+    | nil => rfl
+    | cons l ls => have := hr l List.mem_cons_self; omega
+  | succ n ih =>
+    intro j lines vals hlen hs hr
+    rw [List.range'_succ, List.flatMap_cons]
+    cases lines with
+    | nil => 
+      simp only [List.zip_nil_left, List.lookup_nil, hnone, List.nil_append, List.flatMap_nil]
+      have := ih (j + 1) [] [] rfl List.Pairwise.nil (by intro l hl; cases hl)
+      simpa [hnone] using this
+    | cons l ls => cases vals with
+      | nil => simp at hlen
+      | cons b bs =>
+        have hlen' : ls.length = bs.length := by simpa using hlen
+        have hs' := List.pairwise_cons.mp hs
+        by_cases hlj : l = j
+        · subst hlj
+          have hrest : ∀ k ∈ ls, l + 1 ≤ k ∧ k < l + 1 + n := by
+            intro k hk
+            have h1 := hs'.1 k hk
+            have h2 := hr k (List.mem_cons_of_mem _ hk)
+            omega
+          have := ih (l + 1) ls bs hlen' hs'.2 hrest
+          simp only [List.zip_cons_cons, List.flatMap_cons, List.lookup_cons, beq_self_eq_true]
+          rw [← this]
+          congr 1
+          apply flatMap_congr'
+          intro k hk
+          have hk' := List.mem_range'_1.mp hk
+          have hkl : (k == l) = false := by
+            have : k ≠ l := by omega
+            simpa using this
+          simp only [hkl]
+        · have hl := hr l List.mem_cons_self
+          have hjl : j < l := by omega
+          have hnot : j ∉ (l :: ls) := by
+            intro hmem
+            rcases List.mem_cons.mp hmem with e | e
+            · omega
+            · have := hs'.1 j e; omega
+          rw [lookup_zip_of_not_mem j (l :: ls) (b :: bs) hnot, hnone, List.nil_append]
+          exact ih (j + 1) (l :: ls) (b :: bs) hlen hs (by
+            intro k hk
+            have := hr k hk
+            rcases List.mem_cons.mp hk with e | e
+            · omega
+            · have := hs'.1 k e; omega)
+
+/-! ### merge_matrices: the pieces of `mergeSorted` on `ofRows` -/
+
+/-- rows of `A` with the replaced lines emptied -/
+def rows1 (RA : List (List (Nat × Rat))) (lines : List Nat) : List (List (Nat × Rat)) :=
+  (List.range RA.length).map (fun j => if j ∈ lines then [] else RA.getD j [])
+
+/-- rows of `A` with line `lines[k]` replaced by row `k` of `B` -/
+def rows2 (RA : List (List (Nat × Rat))) (lines : List Nat) (RB : List (List (Nat × Rat))) : List (List (Nat × Rat)) :=
+  (List.range RA.length).map (fun j => ((lines.zip RB).lookup j).getD (RA.getD j []))
+
+theorem getD_replicate {α} (n j : Nat) (z : α) : (List.replicate n z).getD j z = z := by
+  simp only [List.getD_eq_getElem?_getD, List.getElem?_replicate]
+  split <;> rfl
+
+theorem cumsum_scatter_zeros (n : Nat) (lines : List Nat) (vals : List Int) (hnd : lines.Nodup)
+    (hlt : ∀ l ∈ lines, l < n) (hlen : lines.length = vals.length) :
+    cumsum (scatter (List.replicate (n + 1) (0 : Int)) (lines.map (· + 1)) vals)
+      = 0 :: cumsumFrom 0 ((List.range n).map (fun j => ((lines.zip vals).lookup j).getD 0)) := by
+  rw [List.replicate_succ, scatter_succ, scatter_eq_map (0 : Int) lines vals _ hnd (by simpa using hlt) hlen]
+  simp only [List.length_replicate, getD_replicate, cumsum, cumsumFrom, Int.add_zero]
+
+theorem lookup_zip_map_right {β γ} (f : β → γ) (j : Nat) (idx : List Nat) (vals : List β) :
+    (idx.zip (vals.map f)).lookup j = ((idx.zip vals).lookup j).map f := by
+  induction idx generalizing vals with
+  | nil => rfl
+  | cons i is ih => cases vals with
+    | nil => rfl
+    | cons v vs =>
+      simp only [List.map_cons, List.zip_cons_cons, List.lookup_cons]
+      cases (j == i) with
+      | true => rfl
+      | false => exact ih vs
+
+theorem lookup_isSome_of_mem {β} (j : Nat) (idx : List Nat) (vals : List β) (h : j ∈ idx) (hlen : idx.length = vals.length) :
+    ∃ b, (idx.zip vals).lookup j = some b := by
+  induction idx generalizing vals with
+  | nil => cases h
+  | cons i is ih => cases vals with
+    | nil => simp at hlen
+    | cons v vs =>
+      simp only [List.zip_cons_cons, List.lookup_cons]
+      by_cases hji : j = i
+      · subst hji; exact ⟨v, by simp⟩
+      · have : (j == i) = false := by simpa using hji
+        rw [this]
+        rcases List.mem_cons.mp h with e | e
+        · exact absurd e hji
+        · exact ih vs e (by simpa using hlen)
+
+theorem diffFrom_cumsumFrom (s : Int) (l : List Int) : diffFrom s (cumsumFrom s l) = l := by
+  induction l generalizing s with
+  | nil => rfl
+  | cons a l ih => simp only [cumsumFrom, diffFrom, ih]; congr 1; omega
+
+theorem length_rows1 (RA : List (List (Nat × Rat))) (lines : List Nat) : (rows1 RA lines).length = RA.length := by
+  simp [rows1]
+
+theorem length_rows2 (RA : List (List (Nat × Rat))) (lines : List Nat) (RB) : (rows2 RA lines RB).length = RA.length := by
+  simp [rows2]
+
+/-- (b) `indptr[lines+1] - indptr[lines]` -/
+theorem removed_ofRows (nc : Nat) (RA : List (List (Nat × Rat))) (lines : List Nat) (hlt : ∀ l ∈ lines, l < RA.length) :
+    List.zipWith (· - ·) ((ofRows nc RA).ptrHi lines) ((ofRows nc RA).ptrLo lines)
+      = lines.map (fun l => ((RA.getD l []).length : Int)) := by
+  simp only [Csr.ptrHi, Csr.ptrLo, List.zipWith_map, List.zipWith_self]
+  apply List.map_congr_left
+  intro i hi
+  obtain ⟨h1, _⟩ := ptr_succ_ofRows nc RA i (hlt i hi)
+  omega
+
+/-- (c)+(d) `indptr - num_rem` -/
+theorem indptr1_ofRows (nc : Nat) (RA : List (List (Nat × Rat))) (lines : List Nat) (hnd : lines.Nodup)
+    (hlt : ∀ l ∈ lines, l < RA.length) :
+    List.zipWith (· - ·) ((ofRows nc RA).indptr.map (fun (p : Nat) => (p : Int)))
+      (cumsum (scatter (List.replicate (ofRows nc RA).indptr.length (0 : Int)) (lines.map (· + 1))
+        (lines.map (fun l => ((RA.getD l []).length : Int)))))
+      = (ptrsFrom 0 (rows1 RA lines)).map (fun (p : Nat) => (p : Int)) := by
+  have hl : (ofRows nc RA).indptr.length = RA.length + 1 := by simp [ofRows, length_ptrsFrom]
+  rw [hl, cumsum_scatter_zeros RA.length lines _ hnd hlt (by simp)]
+  simp only [ofRows, ptrsFrom_cast, Int.natCast_zero, List.zipWith_cons_cons, Int.sub_self]
+  rw [cumsumFrom_sub _ _ _ _ (by simp), Int.sub_self]
+  congr 2
+  rw [map_eq_range_map (fun r => (r.length : Int)) RA [], List.zipWith_map, List.zipWith_self, rows1, List.map_map]
+  apply List.map_congr_left
+  intro j _
+  simp only [lookup_zip_map, Function.comp]
+  by_cases hj : j ∈ lines
+  · simp [hj]
+  · simp [hj]
+
+/-- (f) `diff(B.indptr)` -/
+theorem rep_ofRows (nc : Nat) (RB : List (List (Nat × Rat))) :
+    diffFrom ((ofRows nc RB).indptr.headD 0) ((ofRows nc RB).indptr.tail.map (fun (p : Nat) => (p : Int)))
+      = RB.map (fun r => (r.length : Int)) := by
+  have h := ptrsFrom_cast 0 RB
+  have h0 : (ofRows nc RB).indptr.headD 0 = 0 := by simp only [ofRows]; rw [ptrsFrom_eq_cons]; rfl
+  have ht : (ofRows nc RB).indptr.tail.map (fun (p : Nat) => (p : Int)) = cumsumFrom 0 (RB.map (fun r => (r.length : Int))) := by
+    have := congrArg List.tail h
+    simpa [ofRows, List.map_tail] using this
+  rw [h0, ht]
+  exact diffFrom_cumsumFrom 0 _
+
+/-- (g)+(h) `indptr1 + num_added` -/
+theorem indptr2_ofRows (RA : List (List (Nat × Rat))) (lines : List Nat) (RB : List (List (Nat × Rat)))
+    (hnd : lines.Nodup) (hlt : ∀ l ∈ lines, l < RA.length) (hlen : lines.length = RB.length) :
+    (List.zipWith (· + ·) ((ptrsFrom 0 (rows1 RA lines)).map (fun (p : Nat) => (p : Int)))
+      (cumsum (scatter (List.replicate ((ptrsFrom 0 (rows1 RA lines)).map (fun (p : Nat) => (p : Int))).length (0 : Int))
+        (lines.map (· + 1)) (RB.map (fun r => (r.length : Int)))))).map Int.toNat
+      = ptrsFrom 0 (rows2 RA lines RB) := by
+  have hl : ((ptrsFrom 0 (rows1 RA lines)).map (fun (p : Nat) => (p : Int))).length = RA.length + 1 := by
+    simp [length_ptrsFrom, length_rows1]
+  rw [hl, cumsum_scatter_zeros RA.length lines _ hnd hlt (by simpa using hlen)]
+  have hgoal : (ptrsFrom 0 (rows2 RA lines RB)) = ((ptrsFrom 0 (rows2 RA lines RB)).map (fun (p : Nat) => (p : Int))).map Int.toNat := by
+    simp [List.map_map, Function.comp_def]
+  rw [hgoal]
+  congr 1
+  simp only [ptrsFrom_cast, Int.natCast_zero, List.zipWith_cons_cons, Int.add_zero]
+  rw [cumsumFrom_add _ _ _ _ (by simp [length_rows1]), Int.add_zero]
+  congr 2
+  simp only [rows1, rows2, List.map_map, List.zipWith_map, List.zipWith_self]
+  apply List.map_congr_left
+  intro j _
+  simp only [Function.comp, lookup_zip_map_right]
+  by_cases hj : j ∈ lines
+  · obtain ⟨b, hb⟩ := lookup_isSome_of_mem j lines RB hj hlen
+    simp [hj, hb]
+  · simp [hj, lookup_zip_of_not_mem j lines RB hj]
+
 end PorepyVerif.C35
